@@ -54,7 +54,7 @@ def regenerate():
 
 
 def machine_script(rng, n):
-    s = ["bus new own", "bus pw 0 4180", "bus pw 1 100"]
+    s = ["bus new %s" % rng.choice(["own", "own", "capi"]), "bus pw 0 4180", "bus pw 1 100"]
     for line, (addr, op) in HANDLER.items():
         body = [op] + [0] * rng.below(3)
         ret = rng.choice([0x45C0, 0x45C0, 0x45D0])
